@@ -32,6 +32,17 @@ static int spec_streq(const char *a, const char *b)
 	return a[2] == b[2];
 }
 
+/* equality of NUL-terminated strings shorter than 8 bytes */
+static int spec_streq8(const char *a, const char *b)
+{
+	int i;
+	for (i = 0; i < 8; i++) {
+		if (a[i] != b[i]) return 0;
+		if (a[i] == 0) return 1;
+	}
+	return 1;
+}
+
 /* dictionary order = byte order of unsigned chars (what "ascending key order" means for C strings) */
 static int spec_strcmp(const char *a, const char *b)
 {
